@@ -28,8 +28,8 @@
    and resolve_t tags whatever it returns, so the tagged world never leaves the tagged keys.  Nothing
    is needed about the typed text, the source or the JSON input either: every URL fetch_unknown
    fetches comes out of parse_ref or url_parse. *)
-From Servitor Require Import Base Unicode Ansi Mime Json Object Jtp Client Request Webfinger Open.
-From Servitor.Facts Require Import JtpFacts RequestFacts ClientFacts WebfingerFacts.
+From Servitor Require Import Base Unicode Ansi Mime Json Object Jtp Client Request Webfinger Listing Open.
+From Servitor.Facts Require Import JtpFacts RequestFacts ClientFacts WebfingerFacts ListingFacts.
 Local Open Scope nat_scope.
 
 (* ---------------------------------------------------------------- tagged keys *)
@@ -504,6 +504,36 @@ Proof.
   eapply fetch_user_input_provenance_fact; [|eassumption]. apply sound_mixed; assumption.
 Qed.
 
+(* ---------------------------------------------------------------- the target of an activity *)
+(* pub.getPostOrActor: whatever the activity embeds - directly or inside an inline Create wrapper (Lemmy), whatever ids the
+   wrapper and the embedded object claim - the reference that is resolved is a part of the ACTIVITY's document, and it is
+   resolved against the activity's own id; so the object shown as the target was served by the host its id names. *)
+Lemma target_ref_subvalue (act : obj) (r : jv) : target_ref act = Some r -> subvalue r (JObj act).
+Proof.
+  unfold target_ref. intros H.
+  destruct (get_any act s_object) as [v| |] eqn:Hg; try discriminate.
+  pose proof (get_any_subvalue _ _ _ Hg) as Hv.
+  destruct v as [|b|bits|s|l|m]; try (injection H as <-; exact Hv).
+  destruct (get_string m k_type) as [k| |]; try discriminate.
+  destruct (text_eqb k s_Create).
+  - destruct (get_any m s_object) as [r'| |] eqn:Hg2; try discriminate. injection H as <-.
+    eapply subvalue_trans; [apply (get_any_subvalue _ _ _ Hg2)|exact Hv].
+  - injection H as <-. exact Hv.
+Qed.
+
+Theorem activity_target_provenance_fact : forall c act act_id r o id c' log,
+  mixed_sound c ->
+  (act_id = None \/ exists s, act_id = Some s /\ served W is_https resolve host_of (host_of s) (JObj act)) ->
+  target_ref act = Some r ->
+  fetch_unknown W is_https resolve cap parse_ref url_parse host_of c r act_id = (FUOk o (Some id), c', log) ->
+  served W is_https resolve host_of (host_of id) (JObj o) /\ mixed_sound c'.
+Proof.
+  intros c act act_id r o id c' log Hc Hsrc Hr H.
+  eapply fetch_unknown_mixed_provenance_fact; [exact Hc| |exact H].
+  destruct Hsrc as [Hn|[s [Hs Hv]]]; [left; exact Hn|right].
+  exists s. split; [exact Hs|]. eapply served_sub; [exact Hv|]. apply target_ref_subvalue, Hr.
+Qed.
+
 End OpenFacts.
 
 (* ---------------------------------------------------------------- 5b. the requests (no hypothesis) *)
@@ -659,6 +689,7 @@ Print Assumptions fetch_unknown_mixed_cache_fact.
 Print Assumptions fetch_user_input_cache_fact.
 Print Assumptions fetch_user_input_provenance_fact.
 Print Assumptions fetch_user_input_provenance_sound_fact.
+Print Assumptions activity_target_provenance_fact.
 Print Assumptions fetch_unknown_requests_fact.
 Print Assumptions fetch_user_input_requests_fact.
 Print Assumptions open_example.
